@@ -256,6 +256,13 @@ func properties() map[string]*PropertySpec {
 		Stubs:   []string{stubSHA, stubBig, stubStr, stubNFKD, stubOnce, stubK},
 		Post:    c13Post,
 	}
+	ps["C12"] = &PropertySpec{ID: "C12", Level: "model_checking",
+		Instances: c12Instances,
+		Post:      c12Post,
+		Bounds:    []string{"2 goroutines, one exported call each, from a cold (post-init) process", "calls: 8 shapes (valid-shaped/unknown-word/wrong-count CheckMnemonic, IsMnemonicValid, NewMnemonicByEntropy, NewMnemonic, MnemonicToSeed, String) with symbolic arguments", "language pairs: quick = same language and the next one for each of 10 languages, thorough = all 100 ordered pairs", "either call may win the first use (both orders are instances)", "all interleavings: the schedule is not enumerated, happens-before is decided by the solver as the least relation closed under program order, sync.Once edges and transitivity"},
+		Outside:   []string{"3 or more goroutines (each further call meets a warm state: covered by C13's inductive step, not here)", "synchronisation other than sync.Once (mutexes/atomics get no edges and are flagged)", "goroutines started inside the API (unsupported -> inconclusive)"},
+		Stubs:     []string{stubOnce, stubSHA, stubBig, stubStr, stubNFKD, stubK, stubRand},
+	}
 	ps["C14"] = &PropertySpec{ID: "C14", Level: "model_checking", Panics: true,
 		Instances: func(tier string) []*Instance {
 			out := []*Instance{
@@ -909,9 +916,13 @@ func main() {
 			lang, _ = strconv.Atoi(l)
 		}
 		h := os.Args[2]
-		spec := &PropertySpec{ID: "DEBUG", Level: "model_checking", Panics: os.Getenv("VERIF_PANICS") != "",
+		var post func(c *CheckRun)
+		if h == "H_C12_pair" {
+			post = c12Post
+		}
+		spec := &PropertySpec{ID: "DEBUG", Level: "model_checking", Panics: os.Getenv("VERIF_PANICS") != "", Post: post,
 			Instances: func(string) []*Instance {
-				return []*Instance{{Harness: h, Args: args, Lang: lang, MaxWitnesses: 2}}
+				return []*Instance{{Harness: h, Args: args, Lang: lang, MaxWitnesses: 2, LogEvents: h == "H_C12_pair"}}
 			}}
 		solvers := []string{"z3-new"}
 		if s := os.Getenv("VERIF_SOLVERS"); s != "" {
@@ -978,10 +989,6 @@ func replayCmd(path string) int {
 	return 0
 }
 
-func selfcheck() int {
-	fmt.Println("selfcheck: ok (placeholder)")
-	return 0
-}
 
 
 // ---------------------------------------------------------------- structural post-checks
